@@ -664,23 +664,66 @@ Mat<T> exp_of(const Vec<T> & a)
   return expm<T>(S::template hat<T>(a));
 }
 
-// right Jacobian of exp: sum_k (-1)^k ad^k/(k+1)! = phi1(-ad a)
+template<class S>
+struct is_bundle : std::false_type
+{};
+template<class... P>
+struct is_bundle<SpecBundle<P...>> : std::true_type
+{};
+
+// right Jacobian of exp: sum_k (-1)^k ad^k/(k+1)! = phi1(-ad a).
+// For a Bundle spec (direct product: block-diagonal hat) the series is block diagonal, so it is
+// assembled from the parts' series -- same definition, far cheaper than a (2 Dof)^2 exponential.
 template<class S, class T>
 Mat<T> dr_exp_of(const Vec<T> & a)
 {
-  return phi1<T>(Mat<T>(-ad_of<S, T>(a)));
+  if constexpr (is_bundle<S>::value) {
+    Mat<T> J = Mat<T>::Zero(S::Dof, S::Dof);
+    S::each([&](auto s, int, int d, int, int) {
+      using P = decltype(s);
+      J.block(d, d, P::Dof, P::Dof) = dr_exp_of<P, T>(Vec<T>(a.segment(d, P::Dof)));
+    });
+    return J;
+  } else {
+    return phi1<T>(Mat<T>(-ad_of<S, T>(a)));
+  }
 }
 
-// d/da_k of dr_exp (complex step), returned as Dof matrices
-template<class S>
+// left Jacobian of exp: Ad(exp a) dr_exp(a) = phi1(ad a)
+template<class S, class T>
+Mat<T> dl_exp_of(const Vec<T> & a)
+{
+  if constexpr (is_bundle<S>::value) {
+    Mat<T> J = Mat<T>::Zero(S::Dof, S::Dof);
+    S::each([&](auto s, int, int d, int, int) {
+      using P = decltype(s);
+      J.block(d, d, P::Dof, P::Dof) = dl_exp_of<P, T>(Vec<T>(a.segment(d, P::Dof)));
+    });
+    return J;
+  } else {
+    return phi1<T>(ad_of<S, T>(a));
+  }
+}
+
+// d/da_k of dr_exp / dl_exp (complex step), returned as Dof matrices
+template<class S, bool Left = false>
 std::vector<MatL> ddr_exp_of(const VecL & a)
 {
   std::vector<MatL> out;
-  for (int k = 0; k < S::Dof; ++k) {
-    VecC ac = a.cast<CLD>();
-    ac(k) += CLD(0, CS_H);
-    const MatC J = dr_exp_of<S, CLD>(ac);
-    out.push_back((J.imag() / CS_H).eval());
+  if constexpr (is_bundle<S>::value) {
+    out.assign(static_cast<size_t>(S::Dof), MatL::Zero(S::Dof, S::Dof));
+    S::each([&](auto s, int, int d, int, int) {
+      using P       = decltype(s);
+      const auto dp = ddr_exp_of<P, Left>(VecL(a.segment(d, P::Dof)));
+      for (int k = 0; k < P::Dof; ++k) out[static_cast<size_t>(d + k)].block(d, d, P::Dof, P::Dof) = dp[static_cast<size_t>(k)];
+    });
+  } else {
+    for (int k = 0; k < S::Dof; ++k) {
+      VecC ac = a.cast<CLD>();
+      ac(k) += CLD(0, CS_H);
+      const MatC J = Left ? dl_exp_of<S, CLD>(ac) : dr_exp_of<S, CLD>(ac);
+      out.push_back((J.imag() / CS_H).eval());
+    }
   }
   return out;
 }
